@@ -44,6 +44,14 @@ type Outcome struct {
 	RawOp    int    `json:"raw_op,omitempty"`
 	RawFlags int    `json:"raw_flags,omitempty"`
 	RawBody  string `json:"raw_body,omitempty"`
+	// hostile replies (C17): "rawframe" sends a frame with this version byte (0 = the normal response
+	// version) on stream+RawStreamDelta, uncompressed whatever the connection negotiated;
+	// "bytes" writes RawBody verbatim; Then says what follows: "" nothing | "ok" the normal reply | "drop"
+	RawVersion     int    `json:"raw_version,omitempty"`
+	RawStreamDelta int    `json:"raw_stream_delta,omitempty"`
+	Then           string `json:"then,omitempty"`
+	// UnpreparedID (hex): the id an "unprepared" outcome names (default: the request's own id)
+	UnpreparedID string `json:"unprepared_id,omitempty"`
 }
 
 func (o Outcome) String() string {
@@ -123,6 +131,9 @@ type Cluster struct {
 	// HoldOptions parks the replies to OPTIONS on started connections (heartbeats) until ReleaseOptions
 	HoldOptions bool
 	heldOpts    []*held
+	// internal: hostile replies to the proxy's own requests, keyed by "options" | "use" | "system_local" |
+	// "system_peers" | "startup" | "register"; each entry is consumed once
+	internal map[string][]Outcome
 	// HoldStartup parks the replies to STARTUP (new backend connections hang in their handshake)
 	HoldStartup  bool
 	heldStartups []*held
@@ -384,6 +395,70 @@ func (c *Cluster) ReleaseOptions() int {
 		h.conn.replyMsg(h.version, h.stream, &message.Supported{Options: map[string][]string{"CQL_VERSION": {c.CQLVersion}, "COMPRESSION": {"lz4", "snappy"}}}, nil)
 	}
 	return len(hs)
+}
+
+// QueueInternal queues a hostile reply to the next internal request of the given kind.
+func (c *Cluster) QueueInternal(kind string, o Outcome) {
+	c.mu.Lock()
+	if c.internal == nil {
+		c.internal = map[string][]Outcome{}
+	}
+	c.internal[kind] = append(c.internal[kind], o)
+	c.mu.Unlock()
+}
+
+func (c *Cluster) InternalPending() int {
+	c.mu.Lock()
+	defer c.mu.Unlock()
+	n := 0
+	for _, v := range c.internal {
+		n += len(v)
+	}
+	return n
+}
+
+// hostileInternal answers an internal request with a queued hostile outcome, if any.
+func (c *Conn) hostileInternal(kind string, f *wire.Frame, v primitive.ProtocolVersion, normal func()) bool {
+	cl := c.h.c
+	cl.mu.Lock()
+	q := cl.internal[kind]
+	if len(q) == 0 || !c.Started && kind != "startup" {
+		cl.mu.Unlock()
+		return false
+	}
+	o := q[0]
+	cl.internal[kind] = q[1:]
+	cl.mu.Unlock()
+	body, _ := hex.DecodeString(o.RawBody)
+	switch o.Kind {
+	case "bytes":
+		c.WriteRaw(body)
+	case "rawframe":
+		vb := byte(v) | 0x80
+		if o.RawVersion != 0 {
+			vb = byte(o.RawVersion)
+		}
+		c.write(&wire.Frame{VersionByte: vb, Flags: byte(o.RawFlags), Stream: f.Stream + int16(o.RawStreamDelta), Op: byte(o.RawOp), Body: body})
+	case "silence":
+	case "drop":
+		c.Close()
+		return true
+	default:
+		uid := []byte{1, 2, 3}
+		if o.UnpreparedID != "" {
+			uid, _ = hex.DecodeString(o.UnpreparedID)
+		}
+		if m := ErrorFor(o, "hostile internal "+kind, v, uid); m != nil {
+			c.replyMsg(v, f.Stream, m, nil)
+		}
+	}
+	switch o.Then {
+	case "ok":
+		normal()
+	case "drop":
+		c.Close()
+	}
+	return true
 }
 
 // SetHoldStartup makes new backend connections hang in their handshake until ReleaseStartups.
@@ -857,6 +932,11 @@ func (c *Conn) handle(f *wire.Frame) bool {
 
 	switch m := body.Message.(type) {
 	case *message.Options:
+		if c.hostileInternal("options", f, v, func() {
+			c.replyMsg(v, f.Stream, &message.Supported{Options: map[string][]string{"CQL_VERSION": {cl.CQLVersion}, "COMPRESSION": {"lz4", "snappy"}}}, nil)
+		}) {
+			return true
+		}
 		cl.mu.Lock()
 		if cl.HoldOptions && c.Started {
 			cl.heldOpts = append(cl.heldOpts, &held{conn: c, stream: f.Stream, version: v})
@@ -903,6 +983,9 @@ func (c *Conn) handle(f *wire.Frame) bool {
 			q := strings.TrimSpace(m.Query)
 			if sm := useRe.FindStringSubmatch(q); sm != nil {
 				ks := CQLIdent(sm[1])
+				if c.hostileInternal("use", f, v, func() { c.replyMsg(v, f.Stream, &message.SetKeyspaceResult{Keyspace: ks}, nil) }) {
+					return true
+				}
 				cl.mu.Lock()
 				ok := cl.Keyspaces[ks]
 				if ok {
@@ -918,10 +1001,16 @@ func (c *Conn) handle(f *wire.Frame) bool {
 			}
 			lq := strings.ToLower(q)
 			if lq == "select * from system.local" {
+				if c.hostileInternal("system_local", f, v, func() { c.replyMsg(v, f.Stream, c.systemRows(v, false), nil) }) {
+					return true
+				}
 				c.replyMsg(v, f.Stream, c.systemRows(v, false), nil)
 				return true
 			}
 			if lq == "select * from system.peers" {
+				if c.hostileInternal("system_peers", f, v, func() { c.replyMsg(v, f.Stream, c.systemRows(v, true), nil) }) {
+					return true
+				}
 				c.replyMsg(v, f.Stream, c.systemRows(v, true), nil)
 				return true
 			}
@@ -1042,6 +1131,25 @@ func (c *Conn) scriptedWithID(f *wire.Frame, plain []byte, token string, okMsg f
 	case "raw":
 		body, _ := hex.DecodeString(o.RawBody)
 		c.replyRaw(v, f.Stream, primitive.OpCode(o.RawOp), byte(o.RawFlags), body, setReply)
+	case "rawframe", "bytes":
+		body, _ := hex.DecodeString(o.RawBody)
+		if o.Kind == "bytes" {
+			c.WriteRaw(body)
+		} else {
+			vb := byte(v) | 0x80
+			if o.RawVersion != 0 {
+				vb = byte(o.RawVersion)
+			}
+			fr := &wire.Frame{VersionByte: vb, Flags: byte(o.RawFlags), Stream: f.Stream + int16(o.RawStreamDelta), Op: byte(o.RawOp), Body: body}
+			setReply(fr)
+			c.write(fr)
+		}
+		switch o.Then {
+		case "ok":
+			c.replyMsg(v, f.Stream, ok(), nil)
+		case "drop":
+			return false
+		}
 	case "wrong_stream":
 		c.replyMsg(v, f.Stream+1000, ok(), nil, setReply)
 	case "duplicate":
@@ -1051,6 +1159,9 @@ func (c *Conn) scriptedWithID(f *wire.Frame, plain []byte, token string, okMsg f
 	case "garbage":
 		c.WriteRaw([]byte{0xde, 0xad, 0xbe, 0xef, 0, 1, 2, 3, 4, 5, 6, 7, 8, 9, 10, 11})
 	default:
+		if o.UnpreparedID != "" {
+			id, _ = hex.DecodeString(o.UnpreparedID)
+		}
 		if m := ErrorFor(o, text, v, id); m != nil {
 			c.replyMsg(v, f.Stream, m, nil, setReply)
 		} else {
